@@ -24,6 +24,10 @@ DC4 = ("from dataclasses import dataclass\n@dataclass\nclass DC4:\n    a: int = 
 KEYS = ("a", "b", "c")
 
 
+ASSERTED = ["assert 8 <= snapshot(5)", "assert 7 == snapshot()", "assert 5 == snapshot(5+0)", "assert 3 in snapshot([])", "assert 2 >= snapshot(6)",
+            "assert snapshot({})['b'] == 2", "assert [1, 2] == snapshot([1+0])", "assert 'x' == snapshot('y')"]
+
+
 def bounds(tier):
     return {"programs": len(_programs(tier)), "max_slots": 3, "plugin_programs": 12 if tier == "quick" else 80}
 
@@ -54,6 +58,12 @@ def _programs(tier):
             for tail in ("same", "longer"):
                 for other in ("ok", "upd", "wrong", "gone", "new"):
                     progs.append({"sh": "nested", "s": list(slots), "t": tail, "o": other})
+    # asserted bodies without trim: every single-category run lets the test continue, so orders must still converge
+    menu = list(range(len(ASSERTED)))
+    for k in (2, 3):
+        for combo in itertools.product(menu, repeat=k):
+            if len(set(combo)) == k:
+                progs.append({"sh": "asserted", "s": list(combo)})
     # separate call sites
     sites = ("create", "fix", "trim", "update", "trimin", "fixl", "updl")
     for k in (2, 3, 4):
@@ -131,6 +141,8 @@ def source(p):
         old_other = {"ok": ", 'j': 1", "upd": ", 'j': 1+0", "wrong": ", 'j': 2", "gone": ", 'j': 1", "new": ""}[o]
         new_other = {"ok": ", 'j': 1", "upd": ", 'j': 1", "wrong": ", 'j': 1", "gone": "", "new": ", 'j': 1"}[o]
         body = ["_ok = {'k': %r%s} == snapshot({'k': [%s]%s})" % (obs, new_other, ", ".join(txt), old_other)]
+    elif sh == "asserted":
+        body = [ASSERTED[i] for i in p["s"]]
     elif sh == "sites":
         st = {"create": "_ok = 5 == snapshot()", "fix": "_ok = 5 == snapshot(6)", "trim": "_ok = 5 <= snapshot(9)", "update": "_ok = 5 == snapshot(5+0)",
               "trimin": "_ok = 5 in snapshot([5, 6+0])", "fixl": "_ok = [5, 6] == snapshot([5+0])", "updl": "_ok = [5, 6] == snapshot([5, 6+0])"}
@@ -158,7 +170,7 @@ def _step(src, flags, drv):
         r = run_inline({"test_something.py": src}, flags)
         if r["error"]:
             return None, None, r["error"]["type"] + ": " + r["error"]["msg"][:300]
-        if r["raised"]:
+        if r["raised"] and "AssertionError" not in str(r["raised"]):
             return None, None, "test raised: " + str(r["raised"])[:300]
         return r["files"]["test_something.py"], r["reported"] or [], None
     from ..drivers import plugin
@@ -190,7 +202,8 @@ def explore_program(p, drv):
         return [{"case": case, "what": "internal-error", "detail": "flag-less run: %s\n%s" % (err, src)}], info
     P = [c for c in CATS if c in reported]
     info["P"] = P
-    if len(P) < 2:
+    if len(P) < 2 or (p["sh"] == "asserted" and "trim" in P):
+        info["P"] = P if len(P) < 2 else []
         return [], info
     cache = {}
 
